@@ -23,8 +23,9 @@ from itertools import groupby
 
 from path import Path
 
-from .enums import FileState, Need, ReturnCode, StepState
+from .enums import TARGET_FORBIDDEN_STATES, FileState, Need, ReturnCode, StepState
 from .exceptions import HashError
+from .file import File
 from .hash import FileHash
 from .pending import PendingSummary, analyze_pending
 from .reporter import ReporterClient
@@ -233,6 +234,17 @@ async def _report_missing_targets(workflow: Workflow, reporter: ReporterClient) 
         missing_targets = sorted(
             target for target in workflow.targets if not workflow.is_regular_output(target)
         )
+        # A target that settled as a static file or a volatile output is not merely unproduced:
+        # it can never be a target.
+        # `Workflow.reconcile_targets` lets such a target pass at startup
+        # while a pending step may still declare the file differently,
+        # so the verdict is given here, once the build phase has completed.
+        invalid_targets = []
+        for target in missing_targets:
+            file = workflow.find_attached(File, target)
+            if file is not None and file.get_state() in TARGET_FORBIDDEN_STATES:
+                invalid_targets.append(target)
+        missing_targets = [target for target in missing_targets if target not in invalid_targets]
         # Directory targets that matched zero regular outputs.
         # This check is weaker than the exact-target one above by design (best-effort semantics).
         # See `Workflow.has_regular_output_under`.
@@ -242,6 +254,13 @@ async def _report_missing_targets(workflow: Workflow, reporter: ReporterClient) 
             if not workflow.has_regular_output_under(target_dir)
         )
     returncode = ReturnCode(0)
+    if len(invalid_targets) > 0:
+        await reporter(
+            "ERROR",
+            f"{len(invalid_targets)} target(s) are static files or volatile outputs, "
+            "which cannot be build targets: " + ", ".join(invalid_targets),
+        )
+        returncode |= ReturnCode.FAILED
     if len(missing_targets) > 0:
         await reporter(
             "WARNING",
